@@ -344,4 +344,541 @@ theorem esc_scan (J : List Str) (hJ : EscSet J) (e : Str) (he : e ∈ J) (d : Ch
           · rw [lrun_cons, lrun_cons, h1, hrunA]
           · rw [lrun_cons]; exact hS
 
+/-! ### the text that a replacement step inserts, read by the scanner -/
+
+/-- a name of the `lingoNamed` table, as the replacement loop writes it -/
+structure NameOk (k : Str) (val : Str) : Prop where
+  lookup : lingoNamed.lookup k = some val
+  start : ∃ c cs, k = c :: cs ∧ isIdentStart c = true
+  chars : ∀ c ∈ k, isIdentChar c = true
+
+theorem lrun_ident (X : Option (List Str)) (acc o : Str) : ∀ (ks : Str), (∀ c ∈ ks, isIdentChar c = true) →
+    lrun X ⟨.N acc, o⟩ ks = ⟨.N (acc ++ ks), o⟩ := by
+  intro ks
+  induction ks generalizing acc with
+  | nil => intro _; simp [lrun]
+  | cons c cs ih =>
+    intro h
+    rw [lrun_cons]
+    have hc : isIdentChar c = true := h c (by simp)
+    have : lstep X ⟨.N acc, o⟩ c = ⟨.N (acc ++ [c]), o⟩ := by simp [lstep, hc]
+    rw [this, ih (acc ++ [c]) (fun x hx => h x (by simp [hx]))]
+    simp
+
+/-- a name read where a term is expected -/
+theorem lrun_name (X : Option (List Str)) (k val o : Str) (hk : NameOk k val) : lrun X ⟨.T, o⟩ k = ⟨.N k, o⟩ := by
+  obtain ⟨c, cs, hk1, hk2⟩ := hk.start
+  subst hk1
+  rw [lrun_cons]
+  have hq : c ≠ '"' := by intro e; subst e; simp [isIdentStart] at hk2
+  have : lstep X ⟨.T, o⟩ c = ⟨.N [c], o⟩ := by simp [lstep, hq, hk2]
+  rw [this, lrun_ident X [c] o cs (fun x hx => hk.chars x (by simp [hx]))]
+  simp
+
+theorem lfinal_name (k val o : Str) (hk : NameOk k val) : lfinal ⟨.N k, o⟩ = some (o ++ val) := by
+  simp [lfinal, hk.lookup]
+
+/-- `" & "` closes the string and asks for the next term -/
+theorem lrun_close_amp (X : Option (List Str)) (o : Str) : lrun X ⟨.S, o⟩ (S "\" & ") = ⟨.T, o⟩ := by
+  cases X <;> simp [lrun, lstep, S]
+
+/-- ` & "` after a name: the name's value is appended and a new string opens -/
+theorem lrun_amp_open (X : Option (List Str)) (k val o : Str) (hk : NameOk k val) : lrun X ⟨.N k, o⟩ (S " & \"") = ⟨.S, o ++ val⟩ := by
+  have h1 : lstep X ⟨.N k, o⟩ ' ' = ⟨.A 1, o ++ val⟩ := by
+    simp [lstep, isIdentChar, hk.lookup]
+  have : S " & \"" = ' ' :: '&' :: ' ' :: ['"'] := by decide
+  rw [this, lrun_cons, h1]
+  simp [lrun, lstep]
+
+/-- the state before a quote that opened a string -/
+theorem before_open_quote (X : Option (List Str)) (hX : ∀ J, X = some J → ∀ e ∈ J, '"' ∉ e) (m : LM) (o : Str)
+    (h : lstep X m '"' = ⟨.S, o⟩) : m = ⟨.T, o⟩ := by
+  obtain ⟨q, o'⟩ := m
+  cases q with
+  | T => simp [lstep] at h; subst h; rfl
+  | S => simp [lstep] at h
+  | E p =>
+    cases X with
+    | none => simp [lstep] at h
+    | some J =>
+      rw [lstep_E] at h
+      split at h
+      · rename_i hm
+        exact absurd (by simp) (hX J rfl _ hm)
+      · split at h <;> simp at h
+  | N acc => simp [lstep, isIdentChar] at h
+  | A k => simp only [lstep] at h; split at h <;> (try split at h) <;> (try split at h) <;> simp at h
+  | X => simp [lstep] at h
+
+/-! ### one replacement step -/
+
+theorem replStep_eq (k v A B : Str) : replStep k v (A ++ v ++ B) A.length =
+    ((if endsWith A (S "& \"") then A.take (A.length - 1) else A ++ S "\" & ") ++ k ++ (if B = S "\"" then [] else S " & \"" ++ B),
+     (if endsWith A (S "& \"") then A.length - 1 else A.length + 4) + k.length + (if B = S "\"" then 0 else 4)) := by
+  have h1 : (A ++ v ++ B).take A.length = A := by simp [List.append_assoc]
+  have h2 : (A ++ v ++ B).drop (A.length + v.length) = B := by
+    have : A.length + v.length = (A ++ v).length := by simp
+    rw [this, List.drop_left]
+  unfold replStep
+  simp only [h1, h2]
+  by_cases c1 : endsWith A (S "& \"") = true <;> by_cases c2 : B = S "\"" <;> simp [c1, c2]
+
+/-- the text before the resumption index after a step, and what is left to scan -/
+theorem replStep_split (k v A B : Str) :
+    let r := replStep k v (A ++ v ++ B) A.length
+    r.1.take r.2 = (if endsWith A (S "& \"") then A.take (A.length - 1) else A ++ S "\" & ") ++ k ++ (if B = S "\"" then [] else S " & \"") ∧
+    r.1.drop r.2 = (if B = S "\"" then [] else B) := by
+  intro r
+  have hr : r = replStep k v (A ++ v ++ B) A.length := rfl
+  rw [replStep_eq] at hr
+  rw [hr]
+  by_cases c1 : endsWith A (S "& \"") = true <;> by_cases c2 : B = S "\""
+  · have hl : (A.take (A.length - 1)).length = A.length - 1 := by simp
+    simp only [c1, c2, if_true, List.append_nil, Nat.add_zero]
+    constructor
+    · have : A.length - 1 + k.length = (A.take (A.length - 1) ++ k).length := by simp
+      rw [this, List.take_length]
+    · have : A.length - 1 + k.length = (A.take (A.length - 1) ++ k).length := by simp
+      rw [this, List.drop_length]
+  · have hl : (A.take (A.length - 1)).length = A.length - 1 := by simp
+    simp only [c1, c2, if_true, if_false]
+    have e : A.length - 1 + k.length + 4 = (A.take (A.length - 1) ++ k ++ S " & \"").length := by
+      simp [S]; omega
+    rw [e, ← List.append_assoc, List.take_left, List.drop_left]
+    exact ⟨rfl, rfl⟩
+  · have c1' : endsWith A (S "& \"") = false := by simpa using c1
+    simp only [c1', c2, Bool.false_eq_true, if_false, if_true, List.append_nil, Nat.add_zero]
+    have e : A.length + 4 + k.length = (A ++ S "\" & " ++ k).length := by simp [S]; omega
+    rw [e, List.take_length, List.drop_length]
+    exact ⟨rfl, rfl⟩
+  · have c1' : endsWith A (S "& \"") = false := by simpa using c1
+    simp only [c1', c2, Bool.false_eq_true, if_false]
+    have e : A.length + 4 + k.length + 4 = (A ++ S "\" & " ++ k ++ S " & \"").length := by simp [S]; omega
+    rw [e, ← List.append_assoc, List.take_left, List.drop_left]
+    exact ⟨rfl, rfl⟩
+
+theorem endsWith_quote_split (A : Str) (h : endsWith A (S "& \"") = true) : A = A.take (A.length - 1) ++ ['"'] := by
+  unfold endsWith at h
+  rw [List.isSuffixOf_iff_suffix] at h
+  obtain ⟨pre, hp⟩ := h
+  have hS : S "& \"" = ['&', ' ', '"'] := by decide
+  rw [hS] at hp
+  subst hp
+  have : (pre ++ ['&', ' ', '"']).length - 1 = (pre ++ ['&', ' ']).length := by simp
+  rw [this]
+  have e : pre ++ ['&', ' ', '"'] = (pre ++ ['&', ' ']) ++ ['"'] := by simp
+  rw [e, List.take_left]
+
+/-- the scanner state after the text a replacement step leaves before its resumption index -/
+theorem step_state (X : Option (List Str)) (hX : ∀ J, X = some J → ∀ e ∈ J, '"' ∉ e) (k val : Str) (hk : NameOk k val)
+    (A B o : Str) (hA : lrun X linit A = ⟨.S, o⟩) :
+    lrun X linit ((if endsWith A (S "& \"") then A.take (A.length - 1) else A ++ S "\" & ") ++ k ++
+        (if B = S "\"" then [] else S " & \"")) =
+      (if B = S "\"" then ⟨.N k, o⟩ else ⟨.S, o ++ val⟩) := by
+  have tailRun : ∀ m0 : LM, m0 = ⟨.T, o⟩ →
+      lrun X m0 (k ++ (if B = S "\"" then [] else S " & \"")) = (if B = S "\"" then ⟨.N k, o⟩ else ⟨.S, o ++ val⟩) := by
+    intro m0 hm0
+    subst hm0
+    rw [lrun_append, lrun_name X k val o hk]
+    by_cases c2 : B = S "\""
+    · simp [c2, lrun]
+    · simp only [c2, if_false]
+      exact lrun_amp_open X k val o hk
+  by_cases c1 : endsWith A (S "& \"") = true
+  · simp only [c1, if_true]
+    have hsplit := endsWith_quote_split A c1
+    have hT : lrun X linit (A.take (A.length - 1)) = ⟨.T, o⟩ := by
+      apply before_open_quote X hX
+      have : lrun X linit A = lstep X (lrun X linit (A.take (A.length - 1))) '"' := by
+        conv => lhs; rw [hsplit]
+        rw [lrun_append]; rfl
+      rw [← this]; exact hA
+    rw [List.append_assoc, lrun_append, hT]
+    exact tailRun _ rfl
+  · have c1' : endsWith A (S "& \"") = false := by simpa using c1
+    simp only [c1', Bool.false_eq_true, if_false]
+    rw [List.append_assoc, List.append_assoc, lrun_append, hA, lrun_append, lrun_close_amp]
+    exact tailRun _ rfl
+
+theorem replStep_idx_bounds (k v A B : Str) (hk : k ≠ []) :
+    1 ≤ (replStep k v (A ++ v ++ B) A.length).2 ∧
+    (replStep k v (A ++ v ++ B) A.length).2 ≤ (replStep k v (A ++ v ++ B) A.length).1.length := by
+  rw [replStep_eq]
+  have hkl : 0 < k.length := List.length_pos_iff.mpr hk
+  have l1 : (S "\" & ").length = 4 := by decide
+  have l2 : (S " & \"").length = 4 := by decide
+  by_cases c1 : endsWith A (S "& \"") = true <;> by_cases c2 : B = S "\""
+  · simp only [c1, c2, if_true, List.length_append, List.length_take, List.length_nil]; omega
+  · simp only [c1, c2, if_true, if_false, List.length_append, List.length_take, l2]; omega
+  · have c1' : endsWith A (S "& \"") = false := by simpa using c1
+    simp only [c1', c2, Bool.false_eq_true, if_true, if_false, List.length_append, l1, List.length_nil]; omega
+  · have c1' : endsWith A (S "& \"") = false := by simpa using c1
+    simp only [c1', c2, Bool.false_eq_true, if_false, List.length_append, l1, l2]; omega
+
+theorem pyFind_eq (n v : Str) (idx : Nat) (h1 : 1 ≤ idx) (h2 : idx ≤ n.length) :
+    pyFind n v idx (n.length - 1) =
+      match findFrom (n.drop idx) v idx (n.length - 1) with
+      | some k => (k : Int)
+      | none => -1 := by
+  unfold pyFind
+  have : min (n.length - 1) n.length = n.length - 1 := by omega
+  have h3 : ¬ idx > n.length := by omega
+  simp only [this, h3, if_false]
+  rfl
+
+/-- one escape pass: the text read with the escape set `J` and the rewritten text read without `e` have the same value -/
+theorem esc_pass (J : List Str) (hJ : EscSet J) (e : Str) (he : e ∈ J) (d : Char) (hd : escTable.lookup e = some d)
+    (k : Str) (hk : NameOk k [d]) (t : Str) :
+    ∀ (N : Nat) (n : Str) (idx : Nat), n.length - idx = N → 1 ≤ idx → idx ≤ n.length →
+      (∃ m, lrun (some (dropEsc J e)) linit (n.take idx) = m ∧ lrun (some J) linit (n.take idx) = m ∧
+            lfinal (lrun (some J) m (n.drop idx)) = some t ∧ (∀ p, m.q = .E p → ¬ e <+: p ++ n.drop idx)) →
+      lfinal (lrun (some (dropEsc J e)) linit
+        (replLoop k ('\\' :: e) n idx (pyFind n ('\\' :: e) idx (n.length - 1)))) = some t := by
+  intro N
+  induction N using Nat.strongRecOn with
+  | _ N ih =>
+    intro n idx hN h1 h2 ⟨m, hm', hm, hrun, hI3⟩
+    have hJ' : ∀ J0, some (dropEsc J e) = some J0 → ∀ x ∈ J0, '"' ∉ x := by
+      intro J0 h x hx; cases h; exact hJ.noQuote x ((mem_dropEsc J e x).1 hx).1
+    have hJq : ∀ J0, some J = some J0 → ∀ x ∈ J0, '"' ∉ x := by
+      intro J0 h x hx; cases h; exact hJ.noQuote x hx
+    have hlen : idx + (n.drop idx).length = n.length - 1 + 1 := by simp [List.length_drop]; omega
+    have scan := esc_scan J hJ e he d hd t (n.length - 1) (n.drop idx) m idx hrun hI3 hlen
+    rw [pyFind_eq n _ idx h1 h2]
+    cases hf : findFrom (n.drop idx) ('\\' :: e) idx (n.length - 1) with
+    | none =>
+      rw [hf] at scan
+      simp only at scan ⊢
+      rw [replLoop_nonpos _ _ _ _ _ (by decide)]
+      have : n = n.take idx ++ n.drop idx := (List.take_append_drop idx n).symm
+      rw [this, lrun_append, hm', scan]
+      exact hrun
+    | some p =>
+      rw [hf] at scan
+      simp only at scan ⊢
+      obtain ⟨a, B, hrest, hp, hrunA, hS⟩ := scan
+      -- the text as A ++ v ++ B with |A| = p
+      have hn : n = (n.take idx ++ a) ++ ('\\' :: e) ++ B := by
+        have : n = n.take idx ++ n.drop idx := (List.take_append_drop idx n).symm
+        rw [hrest] at this
+        simpa [List.append_assoc] using this
+      have hAlen : (n.take idx ++ a).length = p := by
+        simp only [List.length_append, List.length_take]; omega
+      generalize hA : n.take idx ++ a = A at hn hAlen
+      obtain ⟨o, hmA⟩ : ∃ o, lrun (some J) m a = ⟨.S, o⟩ := by
+        cases hx : lrun (some J) m a with
+        | mk q o => rw [hx] at hS; simp only at hS; subst hS; exact ⟨o, rfl⟩
+      have hAJ : lrun (some J) linit A = ⟨.S, o⟩ := by rw [← hA, lrun_append, hm, hmA]
+      have hAJ' : lrun (some (dropEsc J e)) linit A = ⟨.S, o⟩ := by rw [← hA, lrun_append, hm', hrunA, hmA]
+      have hrunB : lfinal (lrun (some J) ⟨.S, o ++ [d]⟩ B) = some t := by
+        have : n.drop idx = a ++ (('\\' :: e) ++ B) := by rw [hrest]; simp [List.append_assoc]
+        rw [this, lrun_append, hmA, lrun_append, lrun_backslash_escape J hJ e he d hd] at hrun
+        exact hrun
+      -- unfold one iteration of the loop
+      rw [replLoop]
+      have hpos : ((p : Nat) : Int) > 0 := by omega
+      have hguard : idx ≤ ((p : Nat) : Int).toNat ∧ ((p : Nat) : Int).toNat + ('\\' :: e).length ≤ n.length ∧ 0 < ('\\' :: e).length := by
+        refine ⟨by simp; omega, ?_, by simp⟩
+        have := congrArg List.length hn
+        simp only [List.length_append, Int.toNat_natCast] at this ⊢
+        omega
+      simp only [hpos, if_true, hguard, and_self, dite_true, Int.toNat_natCast]
+      -- the recursive call
+      have hnp : replStep k ('\\' :: e) n p = replStep k ('\\' :: e) (A ++ ('\\' :: e) ++ B) A.length := by
+        rw [← hn, hAlen]
+      rw [hnp]
+      have hkne : k ≠ [] := by obtain ⟨c, cs, hk1, _⟩ := hk.start; rw [hk1]; simp
+      obtain ⟨hb1, hb2⟩ := replStep_idx_bounds k ('\\' :: e) A B hkne
+      obtain ⟨hsp1, hsp2⟩ := replStep_split k ('\\' :: e) A B
+      have hdec := replStep_dec k ('\\' :: e) n p idx (by omega) (by
+        have := congrArg List.length hn
+        simp only [List.length_append] at this ⊢; omega) (by simp)
+      rw [hnp] at hdec
+      have hguard2 : idx ≤ p ∧ p + ('\\' :: e).length ≤ n.length ∧ True := by
+        refine ⟨by omega, ?_, trivial⟩
+        have := congrArg List.length hn
+        simp only [List.length_append] at this ⊢
+        omega
+      rw [dif_pos hguard2]
+      apply ih _ (by rw [← hN]; exact hdec) _ _ rfl hb1 hb2
+      refine ⟨if B = S "\"" then ⟨.N k, o⟩ else ⟨.S, o ++ [d]⟩, ?_, ?_, ?_, ?_⟩
+      · rw [hsp1]; exact step_state _ hJ' k [d] hk A B o hAJ'
+      · rw [hsp1]; exact step_state _ hJq k [d] hk A B o hAJ
+      · rw [hsp2]
+        by_cases c2 : B = S "\""
+        · simp only [c2, if_true, lrun_nil]
+          rw [lfinal_name k [d] o hk]
+          rw [c2] at hrunB
+          have : S "\"" = ['"'] := by decide
+          rw [this] at hrunB
+          simpa [lrun, lstep, lfinal] using hrunB
+        · simp only [c2, if_false]; exact hrunB
+      · intro p' hq
+        by_cases c2 : B = S "\"" <;> simp [c2] at hq
+
+/-- the pass for one escape, started like `replace_chars_with_lingo_constants` starts it (index 1) -/
+theorem esc_pass_top (J : List Str) (hJ : EscSet J) (e : Str) (he : e ∈ J) (d : Char) (hd : escTable.lookup e = some d)
+    (k : Str) (hk : NameOk k [d]) (t n : Str) (h : lfinal (lrun (some J) linit n) = some t) :
+    lfinal (lrun (some (dropEsc J e)) linit (replLoop k ('\\' :: e) n 1 (pyFind n ('\\' :: e) 1 (n.length - 1)))) = some t := by
+  cases n with
+  | nil => simp [lrun, lfinal, linit] at h
+  | cons c r =>
+    apply esc_pass J hJ e he d hd k hk t _ (c :: r) 1 rfl (by omega) (by simp)
+    refine ⟨lstep (some J) linit c, ?_, ?_, ?_, ?_⟩
+    · simp only [List.take_succ_cons, List.take_zero]
+      rw [lrun_cons, lrun_nil]
+      exact lstep_same J _ linit c (by intro p; simp [linit])
+    · simp only [List.take_succ_cons, List.take_zero]; rfl
+    · simpa [lrun_cons] using h
+    · intro p hq
+      exfalso
+      simp only [lstep, linit] at hq
+      split at hq <;> (try split at hq) <;> simp at hq
+
+/-! ### the QUOTE pass -/
+
+/-- characters for which the Lingo literal is right: printable ASCII other than the backslash, BACKSPACE, ENTER, RETURN, TAB -/
+def safeChar (c : Char) : Bool :=
+  (32 ≤ c.toNat && c.toNat < 127 && c != '\\') || c.toNat == 8 || c.toNat == 3 || c.toNat == 13 || c.toNat == 9
+
+theorem char_of_toNat (c : Char) (n : Nat) (h : c.toNat = n) (hv : n.isValidChar) : c = Char.ofNat n := by
+  apply Char.ext
+  simp only [Char.ofNat, hv, dite_true, Char.ofNatAux]
+  have : c.val.toNat = n := h
+  apply UInt32.toNat_inj.mp
+  simp [this]
+
+/-- the escape of a safe character other than the quote, read inside a string, gives the character back -/
+theorem lrun_safe_char (c : Char) (o : Str) (hs : safeChar c = true) (hq : c ≠ '"') :
+    lrun (some J0) ⟨.S, o⟩ (unicodeEscapeChar c) = ⟨.S, o ++ [c]⟩ ∧ '"' ∉ unicodeEscapeChar c := by
+  simp only [safeChar, Bool.or_eq_true, Bool.and_eq_true, decide_eq_true_eq, bne_iff_ne, ne_eq, beq_iff_eq] at hs
+  rcases hs with (((⟨⟨h1, h2⟩, h3⟩ | h8) | h3') | h13) | h9
+  · have ht : c ≠ '\t' := by intro e; subst e; simp at h1
+    have hn : c ≠ '\n' := by intro e; subst e; simp at h1
+    have hr : c ≠ '\r' := by intro e; subst e; simp at h1
+    have he : unicodeEscapeChar c = [c] := by simp [unicodeEscapeChar, h3, ht, hn, hr, h1, h2]
+    rw [he]
+    refine ⟨?_, by simp; exact fun e => hq e.symm⟩
+    simp [lrun, lstep, hq, h3]
+  · have : c = Char.ofNat 8 := char_of_toNat c 8 h8 (by decide)
+    subst this
+    refine ⟨?_, by decide⟩
+    have : unicodeEscapeChar (Char.ofNat 8) = '\\' :: ['x', '0', '8'] := by decide
+    rw [this]
+    exact lrun_backslash_escape J0 escSet_J0 _ (by decide) _ (by decide) o
+  · have : c = Char.ofNat 3 := char_of_toNat c 3 h3' (by decide)
+    subst this
+    refine ⟨?_, by decide⟩
+    have : unicodeEscapeChar (Char.ofNat 3) = '\\' :: ['x', '0', '3'] := by decide
+    rw [this]
+    exact lrun_backslash_escape J0 escSet_J0 _ (by decide) _ (by decide) o
+  · have : c = '\r' := char_of_toNat c 13 h13 (by decide)
+    subst this
+    refine ⟨?_, by decide⟩
+    have : unicodeEscapeChar '\r' = '\\' :: ['r'] := by decide
+    rw [this]
+    exact lrun_backslash_escape J0 escSet_J0 _ (by decide) _ (by decide) o
+  · have : c = '\t' := char_of_toNat c 9 h9 (by decide)
+    subst this
+    refine ⟨?_, by decide⟩
+    have : unicodeEscapeChar '\t' = '\\' :: ['t'] := by decide
+    rw [this]
+    exact lrun_backslash_escape J0 escSet_J0 _ (by decide) _ (by decide) o
+
+/-- the escaped form of safe text without quotes, read inside a string -/
+theorem lrun_safe_text (s : Str) (o : Str) (hs : ∀ c ∈ s, safeChar c = true) (hq : ∀ c ∈ s, c ≠ '"') :
+    lrun (some J0) ⟨.S, o⟩ (unicodeEscape s) = ⟨.S, o ++ s⟩ ∧ (∀ x ∈ unicodeEscape s, x ≠ '"') := by
+  induction s generalizing o with
+  | nil => simp [unicodeEscape, lrun]
+  | cons c cs ih =>
+    obtain ⟨h1, h2⟩ := lrun_safe_char c o (hs c (by simp)) (hq c (by simp))
+    obtain ⟨h3, h4⟩ := ih (o ++ [c]) (fun x hx => hs x (by simp [hx])) (fun x hx => hq x (by simp [hx]))
+    simp only [unicodeEscape, List.flatMap_cons] at h3 h4 ⊢
+    constructor
+    · rw [lrun_append, h1, h3]; simp
+    · intro x hx
+      simp only [List.mem_append] at hx
+      rcases hx with hx | hx
+      · intro e; subst e; exact h2 hx
+      · exact h4 x hx
+
+theorem findFrom_hit (s p : Str) (k limit : Nat) (h1 : k + p.length ≤ limit) (h2 : p.isPrefixOf s = true) :
+    findFrom s p k limit = some k := by
+  unfold findFrom
+  have : ¬ k + p.length > limit := by omega
+  simp [this, h2]
+
+theorem findFrom_skip_eq (t rest : Str) (c : Char) (v : Str) (k limit : Nat) (ht : ∀ x ∈ t, x ≠ c) :
+    findFrom (t ++ rest) (c :: v) k limit = findFrom rest (c :: v) (k + t.length) limit := by
+  induction t generalizing k with
+  | nil => simp
+  | cons x xs ih =>
+    rw [List.cons_append, findFrom]
+    by_cases hl : k + (c :: v).length > limit
+    · simp only [hl, if_true]
+      exact (findFrom_limit _ _ _ _ (by simp at hl ⊢; omega)).symm
+    · have hx : x ≠ c := ht x (by simp)
+      have hp : ((c :: v).isPrefixOf (x :: (xs ++ rest))) = false := by
+        simp [List.isPrefixOf]; intro e; exact absurd e.symm hx
+      simp only [hl, if_false, hp, Bool.false_eq_true]
+      rw [ih (k + 1) (fun y hy => ht y (by simp [hy]))]
+      congr 1
+      simp; omega
+
+theorem replLoop_at_end (k v n : Str) (hv : v ≠ []) : replLoop k v n n.length (pyFind n v n.length (n.length - 1)) = n := by
+  apply replLoop_nonpos
+  unfold pyFind
+  have h1 : ¬ n.length > n.length := by omega
+  simp only [h1, if_false, List.drop_length]
+  have hvl : 0 < v.length := List.length_pos_iff.mpr hv
+  rw [findFrom_limit [] v n.length _ (by omega)]
+  decide
+
+/-- split a text at its first quote -/
+theorem split_first_quote (s : Str) : (∀ c ∈ s, c ≠ '"') ∨ ∃ s1 s2, s = s1 ++ '"' :: s2 ∧ ∀ c ∈ s1, c ≠ '"' := by
+  induction s with
+  | nil => left; simp
+  | cons c cs ih =>
+    by_cases hc : c = '"'
+    · right; exact ⟨[], cs, by simp [hc], by simp⟩
+    · rcases ih with h | ⟨s1, s2, h1, h2⟩
+      · left; intro x hx; simp only [List.mem_cons] at hx; rcases hx with rfl | hx; exact hc; exact h x hx
+      · right
+        refine ⟨c :: s1, s2, by simp [h1], ?_⟩
+        intro x hx; simp only [List.mem_cons] at hx; rcases hx with rfl | hx; exact hc; exact h2 x hx
+
+theorem unicodeEscape_append (a b : Str) : unicodeEscape (a ++ b) = unicodeEscape a ++ unicodeEscape b := by
+  simp [unicodeEscape]
+
+theorem unicodeEscape_quote_cons (s : Str) : unicodeEscape ('"' :: s) = '"' :: unicodeEscape s := by
+  have : unicodeEscapeChar '"' = ['"'] := by decide
+  simp [unicodeEscape, this]
+
+theorem unicodeEscapeChar_ne_nil (c : Char) : unicodeEscapeChar c ≠ [] := by
+  unfold unicodeEscapeChar
+  by_cases h1 : c = '\\' <;> simp only [h1, if_true, if_false]
+  · simp
+  by_cases h2 : c = '\t' <;> simp only [h2, if_true, if_false]
+  · simp
+  by_cases h3 : c = '\n' <;> simp only [h3, if_true, if_false]
+  · simp
+  by_cases h4 : c = '\r' <;> simp only [h4, if_true, if_false]
+  · simp
+  by_cases h5 : 32 ≤ c.toNat ∧ c.toNat < 127 <;> simp only [h5, if_true, if_false]
+  · simp
+  by_cases h6 : c.toNat < 256 <;> simp only [h6, if_true, if_false]
+  · simp
+  by_cases h7 : c.toNat < 65536 <;> simp only [h7, if_true, if_false] <;> simp
+
+theorem nameOk_QUOTE : NameOk (S "QUOTE") ['"'] :=
+  ⟨by decide, ⟨'Q', S "UOTE", by decide, by decide⟩, by decide⟩
+
+/-- the QUOTE pass: from `P ++ escaped(s') ++ "` with the scanner inside a string after `P`, to a text that the scanner with
+    all four escapes accepts, with the value so far followed by `s'` -/
+theorem quote_pass : ∀ (N : Nat) (P s' o : Str),
+    (P ++ unicodeEscape s' ++ ['"']).length - P.length = N → 1 ≤ P.length →
+    (∀ c ∈ s', safeChar c = true) → lrun (some J0) linit P = ⟨.S, o⟩ →
+    lfinal (lrun (some J0) linit
+      (replLoop (S "QUOTE") ['"'] (P ++ unicodeEscape s' ++ ['"']) P.length
+        (pyFind (P ++ unicodeEscape s' ++ ['"']) ['"'] P.length ((P ++ unicodeEscape s' ++ ['"']).length - 1)))) = some (o ++ s') := by
+  intro N
+  induction N using Nat.strongRecOn with
+  | _ N ih =>
+    intro P s' o hN hP hsafe hPS
+    have hJq : ∀ J, some J0 = some J → ∀ x ∈ J, '"' ∉ x := by
+      intro J h x hx; cases h; exact escSet_J0.noQuote x hx
+    have hlenn : P.length ≤ (P ++ unicodeEscape s' ++ ['"']).length := by simp
+    rw [pyFind_eq _ _ _ hP hlenn]
+    have hdrop : (P ++ unicodeEscape s' ++ ['"']).drop P.length = unicodeEscape s' ++ ['"'] := by
+      rw [List.append_assoc, List.drop_left]
+    rw [hdrop]
+    have hlim : (P ++ unicodeEscape s' ++ ['"']).length - 1 = P.length + (unicodeEscape s').length := by simp
+    rcases split_first_quote s' with hnq | ⟨s1, s2, hs, hs1⟩
+    · -- no quote left: nothing is found, the text is final
+      obtain ⟨hrun, hnoq⟩ := lrun_safe_text s' o hsafe hnq
+      rw [findFrom_skip_eq _ _ _ _ _ _ hnoq, findFrom_limit _ _ _ _ (by rw [hlim]; simp)]
+      simp only
+      rw [replLoop_nonpos _ _ _ _ _ (by decide)]
+      rw [List.append_assoc, lrun_append, hPS, lrun_append, hrun]
+      simp [lrun, lstep, lfinal]
+    · -- first quote after the safe, quote-free text s1
+      subst hs
+      have hsafe1 : ∀ c ∈ s1, safeChar c = true := fun c hc => hsafe c (by simp [hc])
+      have hsafe2 : ∀ c ∈ s2, safeChar c = true := fun c hc => hsafe c (by simp [hc])
+      obtain ⟨hrun1, hnoq1⟩ := lrun_safe_text s1 o hsafe1 hs1
+      have hE : unicodeEscape (s1 ++ '"' :: s2) = unicodeEscape s1 ++ '"' :: unicodeEscape s2 := by
+        rw [unicodeEscape_append, unicodeEscape_quote_cons]
+      rw [hE] at hlim hN ⊢
+      have hfind : findFrom (unicodeEscape s1 ++ '"' :: unicodeEscape s2 ++ ['"']) ['"'] P.length
+          ((P ++ (unicodeEscape s1 ++ '"' :: unicodeEscape s2) ++ ['"']).length - 1) = some (P.length + (unicodeEscape s1).length) := by
+        rw [List.append_assoc, findFrom_skip_eq _ _ _ _ _ _ hnoq1]
+        apply findFrom_hit
+        · simp; omega
+        · simp [List.isPrefixOf]
+      rw [hfind]
+      simp only
+      -- the text as A ++ v ++ B
+      generalize hA : P ++ unicodeEscape s1 = A
+      generalize hB : unicodeEscape s2 ++ ['"'] = B
+      have hn : P ++ (unicodeEscape s1 ++ '"' :: unicodeEscape s2) ++ ['"'] = A ++ ['"'] ++ B := by
+        rw [← hA, ← hB]; simp [List.append_assoc]
+      have hAl : P.length + (unicodeEscape s1).length = A.length := by rw [← hA]; simp
+      rw [hn] at hN
+      rw [hn, hAl] at *
+      have hAS : lrun (some J0) linit A = ⟨.S, o ++ s1⟩ := by rw [← hA, lrun_append, hPS, hrun1]
+      rw [replLoop]
+      have hpos : ((A.length : Nat) : Int) > 0 := by
+        have : 1 ≤ A.length := by rw [← hA]; simp; omega
+        omega
+      have hguard : P.length ≤ ((A.length : Nat) : Int).toNat ∧ ((A.length : Nat) : Int).toNat + ['"'].length ≤ (A ++ ['"'] ++ B).length ∧ 0 < ['"'].length := by
+        refine ⟨by simp; rw [← hA]; simp, by simp, by simp⟩
+      rw [if_pos hpos, dif_pos hguard]
+      simp only [Int.toNat_natCast]
+      obtain ⟨hb1, hb2⟩ := replStep_idx_bounds (S "QUOTE") ['"'] A B (by decide)
+      obtain ⟨hsp1, hsp2⟩ := replStep_split (S "QUOTE") ['"'] A B
+      have hst := step_state (some J0) hJq (S "QUOTE") ['"'] nameOk_QUOTE A B (o ++ s1) hAS
+      have hdec := replStep_dec (S "QUOTE") ['"'] (A ++ ['"'] ++ B) A.length P.length (by rw [← hA]; simp) (by simp) (by simp)
+      generalize hr : replStep (S "QUOTE") ['"'] (A ++ ['"'] ++ B) A.length = r at *
+      have hr1 : r.1 = r.1.take r.2 ++ r.1.drop r.2 := (List.take_append_drop _ _).symm
+      have hr2 : (r.1.take r.2).length = r.2 := by simp [List.length_take]; omega
+      by_cases c2 : B = S "\""
+      · -- the quote was the last character: the loop stops at the end of the text
+        simp only [c2, if_true] at hsp1 hsp2 hst
+        have hs2 : s2 = [] := by
+          have : unicodeEscape s2 = [] := by
+            have hB' := hB; rw [c2] at hB'
+            have : S "\"" = ['"'] := by decide
+            rw [this] at hB'
+            have hl := congrArg List.length hB'
+            simp at hl
+            exact hl
+          cases s2 with
+          | nil => rfl
+          | cons c cs =>
+            exfalso
+            simp only [unicodeEscape, List.flatMap_cons] at this
+            have hne : unicodeEscapeChar c ≠ [] := unicodeEscapeChar_ne_nil c
+            exact hne (List.append_eq_nil_iff.mp this).1
+        have hidx : r.2 = r.1.length := by
+          have : r.1.drop r.2 = [] := hsp2
+          have := congrArg List.length this
+          simp [List.length_drop] at this
+          omega
+        rw [hidx, replLoop_at_end _ _ _ (by decide)]
+        have : r.1 = r.1.take r.2 := by
+          conv => lhs; rw [hr1, hsp2]
+          simp
+        rw [this, hsp1, hst, lfinal_name _ _ _ nameOk_QUOTE, hs2]
+        simp
+      · -- more text follows: the loop goes on with the rest
+        simp only [c2, if_false] at hsp1 hsp2 hst
+        have hshape : r.1 = r.1.take r.2 ++ unicodeEscape s2 ++ ['"'] := by
+          conv => lhs; rw [hr1, hsp2, ← hB]
+          simp [List.append_assoc]
+        have hres := ih (r.1.length - r.2) (by rw [← hN]; exact hdec) (r.1.take r.2) s2 (o ++ s1 ++ ['"'])
+          (by rw [← hshape, hr2]) (by rw [hr2]; exact hb1) hsafe2 (by rw [hsp1]; exact hst)
+        rw [← hshape, hr2] at hres
+        rw [hres]
+        simp [List.append_assoc]
+
 end Drx.Lscr
